@@ -137,12 +137,14 @@ func setBitfield(bytes []byte, start, width int, value int64) {
 
 func isSignedSumOverflow(a, b int64, bits int) bool {
 	signBit := int64(1) << (bits - 1)
+	// (the bound is moved by b, not by a: ceiling-b and bottom-b cannot leave the int64 range,
+	// ceiling-a and bottom-a can when the type is 64 bits wide)
 	if b > 0 {
 		ceiling := signBit - 1
-		return b > (ceiling - a)
+		return a > (ceiling - b)
 	} else {
 		bottom := ^(signBit - 1)
-		return b < (bottom - a)
+		return a < (bottom - b)
 	}
 }
 
